@@ -781,6 +781,10 @@ impl TryFrom<&[u8]> for AdcV3Packet {
         let trigger_offset = i32::from_be_bytes(trigger_offset);
         let build_timestamp = slice[28..32].try_into().unwrap();
         let build_timestamp = u32::from_be_bytes(build_timestamp);
+        // The number of samples is at most 2 less than requested. Saturate so
+        // that a `requested_samples` below 2 cannot underflow; such a packet is
+        // always rejected below with `BadNumberOfSamples`.
+        let max_samples = requested_samples.saturating_sub(2);
         let waveform_bytes = slice.len() - 36;
         if waveform_bytes % 2 != 0 {
             return Err(Self::Error::IncompleteSlice {
@@ -798,7 +802,7 @@ impl TryFrom<&[u8]> for AdcV3Packet {
             return Err(Self::Error::BadNumberOfSamples {
                 found: waveform.len(),
                 min: BASELINE_SAMPLES,
-                max: requested_samples - 2,
+                max: max_samples,
             });
         }
         let data_baseline = {
@@ -836,14 +840,14 @@ impl TryFrom<&[u8]> for AdcV3Packet {
                 return Err(Self::Error::BadNumberOfSamples {
                     found: waveform.len(),
                     min: last_index + 1,
-                    max: requested_samples - 2,
+                    max: max_samples,
                 });
             }
-            if waveform.len() > requested_samples - 2 {
+            if waveform.len() > max_samples {
                 return Err(Self::Error::BadNumberOfSamples {
                     found: waveform.len(),
                     min: last_index + 1,
-                    max: requested_samples - 2,
+                    max: max_samples,
                 });
             }
         } else {
@@ -859,7 +863,7 @@ impl TryFrom<&[u8]> for AdcV3Packet {
                     return Err(Self::Error::BadNumberOfSamples {
                         found: waveform.len(),
                         min: last_index + 1,
-                        max: requested_samples - 2,
+                        max: max_samples,
                     });
                 }
             } else if keep_last != 0 {
@@ -868,11 +872,11 @@ impl TryFrom<&[u8]> for AdcV3Packet {
                     limit: 0,
                 });
             }
-            if waveform.len() != requested_samples - 2 {
+            if waveform.len() != max_samples {
                 return Err(Self::Error::BadNumberOfSamples {
                     found: waveform.len(),
-                    min: requested_samples - 2,
-                    max: requested_samples - 2,
+                    min: max_samples,
+                    max: max_samples,
                 });
             }
         }
